@@ -2,6 +2,9 @@ import Tw.Model.Packet6
 import Tw.Model.Packet7
 import Tw.Proofs.Packet6Read
 import Tw.Proofs.Packet7Read
+import Tw.Proofs.Packet6Bounds
+import Tw.Proofs.Packet7Bounds
+import Tw.Proofs.PacketIterInst
 
 /-!
 # C06 — the packet reader is total and stays inside its buffers
@@ -98,6 +101,87 @@ theorem v7_decompress_if_needed_never_panics (t : Tw.Huffman.Table) (bytes : Lis
     (hcap : Tw.Gen.Packet7.MAX_PACKETSIZE ≤ cap) (site : String) :
     Tw.Packet7.decompressIfNeeded t bytes cap ≠ .panic site :=
   Tw.Packet7.decompressIfNeeded_ne_panic t bytes cap hcap site
+
+/-! ## every returned slice lies inside the input or the scratch buffer -/
+
+/-- 0.6: for every accepted datagram the byte-slice field of the result (connless payload, chunk
+payload, close reason) is exactly `length` bytes at offset `loc.off` of the buffer `loc.src` names
+(`Tw.Packet6.ReadOk.Located`: `loc.off + length ≤ buffer.length` and the bytes agree), packets
+without a slice field have no location, and at most `cap` bytes of the scratch buffer are used.
+`HuffmanBounded` is C07's `decompress_bound` (table-independent). -/
+theorem v6_read_slices_inside_buffers (t : Tw.Huffman.Table) (hb : Tw.Packet6.HuffmanBounded t)
+    (bytes : List UInt8) (hint : Option Bool) (cap : Nat) (r : Tw.Packet6.ReadOk)
+    (hr : Tw.Packet6.read t bytes hint (some cap) = .ok r) :
+    r.Located bytes ∧ r.scratch.length ≤ cap :=
+  Tw.Packet6.read_located t hb bytes hint cap r hr
+
+theorem v7_read_slices_inside_buffers (t : Tw.Huffman.Table) (hb : Tw.Packet7.HuffmanBounded t)
+    (bytes : List UInt8) (cap : Nat) (r : Tw.Packet7.ReadOk)
+    (hr : Tw.Packet7.read t bytes (some cap) = .ok r) :
+    r.Located bytes ∧ r.scratch.length ≤ cap :=
+  Tw.Packet7.read_located t hb bytes cap r hr
+
+/-- `ChunksIter` (both protocols): iterating any payload with any chunk count, every returned chunk's
+data is exactly the `data.length` bytes at offset `off` of the payload and lies inside it
+(`Chunk.Located`), and the iteration ends: each `Some` strictly shortens the remaining data, so the
+fuel `payload.length + 1` of `Iter.drain` is never exhausted (fourth component `false`). -/
+theorem chunks_iter_inside_payload_and_terminates (payload : List UInt8) (nc : Nat) :
+    ((∀ ch ∈ ((Iter.new payload nc).drain Tw.Packet6.codec).1, ch.Located payload) ∧
+      ((Iter.new payload nc).drain Tw.Packet6.codec).2.2.2 = false) ∧
+    ((∀ ch ∈ ((Iter.new payload nc).drain Tw.Packet7.codec).1, ch.Located payload) ∧
+      ((Iter.new payload nc).drain Tw.Packet7.codec).2.2.2 = false) :=
+  ⟨Iter.drain_spec _ codec6_sane payload nc, Iter.drain_spec _ codec7_sane payload nc⟩
+
+/-- one call of `next_warn` that returns a chunk strictly shortens the remaining data (progress) -/
+theorem chunks_iter_progress (payload : List UInt8) (it : Iter) (hinv : it.Inv payload) (ch : Chunk)
+    (ws : List Warning) (it' : Iter) :
+    (it.next Tw.Packet6.codec = (some ch, ws, it') → it'.data.length < it.data.length ∧ ch.Located payload) ∧
+    (it.next Tw.Packet7.codec = (some ch, ws, it') → it'.data.length < it.data.length ∧ ch.Located payload) :=
+  ⟨fun h => let x := Iter.next_some _ codec6_sane payload it hinv ch ws it' h; ⟨x.2.1, x.2.2.1⟩,
+   fun h => let x := Iter.next_some _ codec7_sane payload it hinv ch ws it' h; ⟨x.2.1, x.2.2.1⟩⟩
+
+/-! ## whatever the reader accepts can be written again and is read back as the same value -/
+
+/-- **0.6 re-writability**, full statement (no length band is excluded since the repair of D17): for
+every byte string, hint and buffer mode, if `Packet::read` returns a packet (with whatever warnings)
+then `Packet::write` of that value into any buffer of at least `MAX_PACKETSIZE` bytes succeeds and
+`Packet::read` of the written bytes, told the value's token mode, returns the same value with
+`expectedWarnings` (nothing, or `ChunksNoChunks` for an empty chunk packet without resend request). -/
+theorem v6_accepted_is_rewritable (t : Tw.Huffman.Table) (hrt : Tw.Packet6.HuffmanRoundTrip t)
+    (bytes : List UInt8) (hint : Option Bool) (buffer : Option Nat) (r : Tw.Packet6.ReadOk)
+    (hr : Tw.Packet6.read t bytes hint buffer = .ok r) (cap scap : Nat)
+    (hcap : Tw.Gen.Packet6.MAX_PACKETSIZE ≤ cap) (hs : Tw.Gen.Packet6.MAX_PACKETSIZE ≤ scap) :
+    ∃ bs, Tw.Packet6.write t r.pkt cap = .ok bs ∧ bs.length ≤ Tw.Gen.Packet6.MAX_PACKETSIZE ∧
+      ∃ r', Tw.Packet6.read t bs (some r.pkt.hasToken) (some scap) = .ok r' ∧ r'.pkt = r.pkt ∧
+        r'.warns = Tw.Packet6.expectedWarnings r.pkt :=
+  Tw.Packet6.read_rewritable t hrt bytes hint buffer r hr cap scap hcap hs
+
+/-- **0.7 re-writability**, full statement (holds since the repairs of D17 and D25). -/
+theorem v7_accepted_is_rewritable (t : Tw.Huffman.Table) (hrt : Tw.Packet7.HuffmanRoundTrip t)
+    (bytes : List UInt8) (buffer : Option Nat) (r : Tw.Packet7.ReadOk)
+    (hr : Tw.Packet7.read t bytes buffer = .ok r) (cap scap : Nat)
+    (hcap : Tw.Gen.Packet7.MAX_PACKETSIZE ≤ cap) (hs : Tw.Gen.Packet7.MAX_PACKETSIZE ≤ scap) :
+    ∃ bs, Tw.Packet7.write t r.pkt cap = .ok bs ∧ bs.length ≤ Tw.Gen.Packet7.MAX_PACKETSIZE ∧
+      ∃ r', Tw.Packet7.read t bs (some scap) = .ok r' ∧ r'.pkt = r.pkt ∧
+        r'.warns = Tw.Packet7.expectedWarnings r.pkt :=
+  Tw.Packet7.read_rewritable t hrt bytes buffer r hr cap scap hcap hs
+
+/-- the reader only returns values the writer's preconditions admit (the core of re-writability) -/
+theorem accepted_is_valid (t : Tw.Huffman.Table) :
+    (∀ bytes hint buffer r, Tw.Packet6.read t bytes hint buffer = .ok r → Tw.Packet6.Valid r.pkt) ∧
+    (∀ bytes buffer r, Tw.Packet7.read t bytes buffer = .ok r → Tw.Packet7.Valid r.pkt) :=
+  ⟨fun bytes hint buffer r h => Tw.Packet6.read_valid t bytes hint buffer r h,
+   fun bytes buffer r h => Tw.Packet7.read_valid t bytes buffer r h⟩
+
+-- non-vacuity: a connless datagram in the former D17 band (payload 1394 bytes) is accepted …
+example : Tw.Packet6.read #[] (List.replicate 6 255 ++ List.replicate 1394 0) none (some 1400) =
+    .ok { pkt := .connless (List.replicate 1394 0), warns := [], loc := some { src := .input, off := 6 },
+          scratch := [] } :=
+  Tw.Packet6.read_connless_eq _ _ _ 1400 (by decide) (by rw [List.length_replicate]; decide)
+-- … and a small control packet computes
+example : Tw.Packet6.read #[] [0x10, 0, 0, 4, 0x68, 0x69, 0] (some false) (some 1400) =
+    .ok { pkt := .connected 0 none (.control (.close [0x68, 0x69])), warns := [],
+          loc := some { src := .input, off := 4 }, scratch := [] } := by decide
 
 -- non-vacuity: the precondition of the `read_panic_on_decompression` theorems is met by an
 -- uncompressed packet and the statement computes; below the buffer precondition the model panics
